@@ -1,6 +1,9 @@
 package zz_verifsim
 
 import (
+	"github.com/relab/hotstuff/protocol/comm"
+	"github.com/relab/hotstuff/internal/proto/hotstuffpb"
+	"github.com/relab/hotstuff/internal/proto/kauripb"
 	"crypto/sha256"
 
 	"github.com/relab/hotstuff"
@@ -196,6 +199,8 @@ func monC09(w *World) {
 	if err != nil {
 		panic("harness: auditor: " + err.Error())
 	}
+	treeQCSeen := map[hotstuff.Hash]bool{}
+	var treeDue []func()
 	st := map[*Node]map[hotstuff.Hash]*c09block{}
 	get := func(nd *Node, h hotstuff.Hash) *c09block {
 		if st[nd] == nil {
@@ -287,6 +292,7 @@ func monC09(w *World) {
 				// a certificate completed by a node of the aggregation tree
 				if qc, ok := e.SyncInfo.QC(); ok {
 					w.probe("c09-tree-qc-emitted")
+					treeQCSeen[qc.BlockHash()] = true
 					if backed, why := w.orc.qcBacked(qc); !backed {
 						w.violate("C09", "C09/tree-unsound", nd, "%s completed a certificate for %s@%d in the aggregation tree that is not backed by a quorum: %s", nd, w.reg.sym(qc.BlockHash()), qc.View(), why)
 						return
@@ -390,6 +396,79 @@ func monC09(w *World) {
 		}
 		pendingOwn = keep
 	})
+	// The tree root, honest cluster: contributions for the block it is aggregating that verify and do not overlap,
+	// arriving before its wait timer fires, add up; once they cover a quorum together with its own vote, it must
+	// produce the certificate (with a Byzantine replica in the tree nothing is promised: one overlapping aggregate
+	// from a hostile child is legitimately refused).
+	if w.kauri() && len(w.plan.Byz) == 0 {
+		type rootAgg struct {
+			b       *hotstuff.Block
+			signers map[hotstuff.ID]bool
+			void    bool
+			done    bool
+		}
+		roots := map[*Node]*rootAgg{}
+		w.hooks.onSend = append(w.hooks.onSend, func(from *Node, _ hotstuff.ID, m *Msg) {
+			if from == nil || !from.honest || m.forged || m.kind != "propose" {
+				return
+			}
+			if pm, ok := m.val.(hotstuff.ProposeMsg); ok && pm.Block != nil && pm.Block.Proposer() == from.id {
+				if r := roots[from]; r == nil || r.b.Hash() != pm.Block.Hash() {
+					roots[from] = &rootAgg{b: pm.Block, signers: map[hotstuff.ID]bool{from.id: true}}
+				}
+			}
+		})
+		w.hooks.onHandle = append(w.hooks.onHandle, func(nd *Node, ev any) {
+			r := roots[nd]
+			if r == nil || r.void || r.done || w.viol != nil {
+				return
+			}
+			switch e := ev.(type) {
+			case comm.WaitTimerExpiredEvent:
+				r.void = true // the aggregate is sent up / reset: later arrivals start afresh
+			case hotstuff.ProposeMsg, hotstuff.TimeoutEvent:
+				_ = e
+			case *kauripb.Contribution:
+				if hotstuff.View(e.View) != r.b.View() {
+					return
+				}
+				sig := hotstuffpb.QuorumSignatureFromProto(e.Signature)
+				if sig == nil {
+					return
+				}
+				vs := w.orc.validSigners(sig, sameMsg(r.b.ToBytes()))
+				if len(vs) == 0 || len(vs) != sig.Participants().Len() {
+					r.void = true
+					return
+				}
+				for id := 1; id <= w.plan.N; id++ {
+					if vs[hotstuff.ID(id)] && r.signers[hotstuff.ID(id)] {
+						r.void = true // overlapping aggregates are refused
+						return
+					}
+				}
+				for id := 1; id <= w.plan.N; id++ {
+					if vs[hotstuff.ID(id)] {
+						r.signers[hotstuff.ID(id)] = true
+					}
+				}
+				w.probe("c09-tree-root-contribution-counted")
+				if len(r.signers) >= w.orc.q {
+					r.done = true
+					root, b, n := nd, r.b, len(r.signers)
+					w.probe("c09-tree-root-quorum")
+					treeDue = append(treeDue, func() {
+						if w.viol != nil || root.crashed || !root.quiescent() {
+							return
+						}
+						if !treeQCSeen[b.Hash()] {
+							w.violate("C09", "C09/tree-missed", root, "contributions covering %d distinct replicas (quorum %d) for %s were merged at the tree root %s before its timer fired, but it produced no certificate", n, w.orc.q, w.reg.sym(b.Hash()), root)
+						}
+					})
+				}
+			}
+		})
+	}
 	// every partial aggregate a tree node sends up verifies: all its participants really signed one block of that view
 	w.hooks.onContribution = append(w.hooks.onContribution, func(nd *Node, view hotstuff.View, sig hotstuff.QuorumSignature) {
 		if !nd.honest || w.viol != nil {
@@ -421,6 +500,9 @@ func monC09(w *World) {
 	})
 	w.hooks.atEnd = append(w.hooks.atEnd, func() {
 		pendingOwn = nil
+		for _, f := range treeDue {
+			f()
+		}
 		if w.viol != nil {
 			return
 		}
